@@ -135,13 +135,29 @@ def std_main(pid, run, replay=None):
     ap.add_argument("--replay", default=None)
     a = ap.parse_args()
     res = Result(pid, a.tier, a.seed)
-    if a.replay:
-        doc = json.load(open(a.replay))
-        if replay is None:
-            res.notes.append("replay not supported for this property; re-running the seeded check")
-            run(res, a.tier, doc.get("seed", a.seed), a.search)
+    try:
+        if a.replay:
+            doc = json.load(open(a.replay))
+            if replay is None:
+                res.notes.append("replay not supported for this property; re-running the seeded check")
+                run(res, a.tier, doc.get("seed", a.seed), a.search)
+            else:
+                replay(res, doc)
         else:
-            replay(res, doc)
-    else:
-        run(res, a.tier, a.seed, a.search)
+            run(res, a.tier, a.seed, a.search)
+    except Exception as e:  # noqa
+        # An exception that escapes from the implementation (a kernel that raises, a numba typing error after a
+        # source change) on an input the harness generated is a failing input, not an infrastructure error.
+        # Exceptions raised purely inside the harness stay infrastructure errors (exit 2).
+        import traceback
+        tb = traceback.extract_tb(e.__traceback__)
+        impl = [f for f in tb if os.path.join(REPO, "pynndescent") in f.filename or "/numba/" in f.filename]
+        if not impl:
+            raise
+        last_h = [f for f in tb if VERIF in f.filename][-1:]
+        where = "%s:%d" % (os.path.basename(last_h[0].filename), last_h[0].lineno) if last_h else "?"
+        res.violation("exception:%s" % type(e).__name__,
+                      "the implementation raised %s: %s (reached from %s; last implementation frame %s:%d)"
+                      % (type(e).__name__, str(e)[:300], where, os.path.basename(impl[-1].filename), impl[-1].lineno),
+                      {"seed": a.seed, "tier": a.tier, "traceback": traceback.format_exc()[-1500:]})
     res.dump(a.out)
